@@ -1,6 +1,7 @@
 //! vpcheck — property-based / fuzzing checks for gimli (see /verif/DESIGN.md).
 #![allow(dead_code)]
 pub mod core;
+pub mod corpus;
 pub mod driver;
 pub mod enc;
 pub mod c09;
